@@ -23,6 +23,9 @@ CHECKS = {
  "C07": dict(engine="integ", technique="property-based testing of the window check against an independent matcher; model-based integration check of guards and hold_off on a virtual clock",
    text="Exploration: (A) 6k (quick) / 300k (thorough) generated lists of 1-4 positive/negated range()/cron() specifications evaluated by TrigTime.timer_active_check at end points +/- 1 us and random times against an independent matcher; (B) 640 / 24k generated integration histories (state / time / event trigger x @state_active expression x @time_active list x hold_off x decorator order x subsystem; occurrences, guard toggles and direct calls at generated virtual times) compared with a model of 'runs iff guard and window and hold-off'.",
    note="Trusts astral sun times and Home Assistant's bus; part B keeps >= 0.25 s between occurrences and window edges / hold-off deadlines.", ref="2.C07"),
+ "C08": dict(engine="integ", technique="model-based property testing of message delivery (Hypothesis-generated trigger sets and burst histories; round-trip and context-parent oracles)",
+   text="Exploration: 800 (quick) / 30k (thorough) generated cases - event triggers (shared/distinct types, filter expressions, kwargs, several decorators per function, sleeping runs) under bursts of up to 20 events, MQTT and webhook triggers through recording fakes of the Home Assistant subscription boundary - in both subsystems; per decorator the ordered runs and their kwargs must equal the matching messages, runs start at the fire instant, emitted events/state changes/service calls carry exactly the given parameters and a context parented to the occurrence, and subscriptions are single and released on unload.",
+   note="Home Assistant's event bus, MQTT client and HTTP webhook view are trusted; only the boundary functions mqtt.async_subscribe / webhook.async_register are replaced by fakes.", ref="2.C08"),
 }
 NOT_YET = "check not built yet in this round (see DESIGN.md section 2 for the plan)"
 props = [json.loads(l)["id"] for l in open(os.path.join(V, "properties.jsonl"))]
